@@ -224,6 +224,9 @@ void
 	    
 	if ( jcol != EMPTY ) {
 	    w = pxgstrf_shared->pan_status[jcol].size;
+#ifdef SLU_MT_VERIF
+	    SLU_MT_VERIF_EVENT(SLUV_PANEL_BEGIN, pnum, jcol, w, pxgstrf_shared->pan_status[jcol].type, pxgstrf_shared);
+#endif
 
 #if ( DEBUGlevel>=3 )
 	    printf("P%2d got panel %5d-%5d\ttime %.4f\tpanels_left %d\n",
@@ -243,6 +246,9 @@ void
 #ifdef PREDICT_OPT
 		pdiv = Gstat->procstat[pnum].fcops;
 #endif
+#ifdef SLU_MT_VERIF
+		SLU_MT_VERIF_EVENT(SLUV_SNODE_BEGIN, pnum, jcol, w, 0, pxgstrf_shared);
+#endif
 		/* A relaxed supernode at the bottom of the etree */
 		pzgstrf_factor_snode
 		    (pnum, jcol, A, diag_pivot_thresh, usepr,
@@ -257,9 +263,15 @@ void
 #endif
 		}
 
+#ifdef SLU_MT_VERIF
+		SLU_MT_VERIF_EVENT(SLUV_RELEASE_PRE, pnum, jcol, w, 0, pxgstrf_shared);
+#endif
 		/* Release the whole relaxed supernode */
 		for (jj = jcol; jj < jcol + w; ++jj) 
 		    pxgstrf_shared->spin_locks[jj] = 0;
+#ifdef SLU_MT_VERIF
+		SLU_MT_VERIF_EVENT(SLUV_RELEASE_POST, pnum, jcol, w, 0, pxgstrf_shared);
+#endif
 #ifdef PREDICT_OPT
 		pdiv = Gstat->procstat[pnum].fcops - pdiv;
 		cp_panel[jcol].pdiv = pdiv;
@@ -271,6 +283,9 @@ void
 		pxgstrf_mark_busy_descends(pnum, jcol, etree, pxgstrf_shared, 
 					   &bcol, lbusy);
 		
+#ifdef SLU_MT_VERIF
+		SLU_MT_VERIF_EVENT(SLUV_DFS_BEGIN, pnum, jcol, w, 0, pxgstrf_shared);
+#endif
 		/* Symbolic factor on a panel of columns */
 		pzgstrf_panel_dfs
 		    (pnum, m, w, jcol, A, perm_r, xprune,ispruned,lbusy,
@@ -284,6 +299,9 @@ void
 #ifdef PROFILE
 		TOC(t2, t);
 		utime[DFS] += t2;
+#endif
+#ifdef SLU_MT_VERIF
+		SLU_MT_VERIF_EVENT(SLUV_DFS_END, pnum, jcol, w, 0, pxgstrf_shared);
 #endif
 		/* Numeric sup-panel updates in topological order.
 		 * On return, the update values are temporarily stored in 
@@ -316,6 +334,9 @@ void
 		/* Inner-factorization, using sup-col algorithm */
 		for ( jj = jcol; jj < jcol + w; jj++) {
 		    k = (jj - jcol) * m; /* index into w-wide arrays */
+#ifdef SLU_MT_VERIF
+		    SLU_MT_VERIF_EVENT(SLUV_COL_BEGIN, pnum, jj, jcol, 0, pxgstrf_shared);
+#endif
 		    nseg = nseg1; /* begin after all the panel segments */
 #ifdef PROFILE
 		    TIC(t);
@@ -359,9 +380,18 @@ void
 #endif
 			}
 
+#ifdef SLU_MT_VERIF
+		    SLU_MT_VERIF_EVENT(SLUV_PIVOT, pnum, jj, pivrow, *info, pxgstrf_shared);
+#endif
+#ifdef SLU_MT_VERIF
+		    SLU_MT_VERIF_EVENT(SLUV_RELEASE_PRE, pnum, jj, 1, 0, pxgstrf_shared);
+#endif
                     /* release column "jj", so that the other processes
                        waiting for this column can proceed */
 		    pxgstrf_shared->spin_locks[jj] = 0;
+#ifdef SLU_MT_VERIF
+		    SLU_MT_VERIF_EVENT(SLUV_RELEASE_POST, pnum, jj, 1, 0, pxgstrf_shared);
+#endif
 		    
 		    /* copy the U-segments to ucol[*] */
 		    if ( (*info = pzgstrf_copy_to_ucol
@@ -369,10 +399,16 @@ void
 				     perm_r, &dense[k], pxgstrf_shared)) )
 		      return 0;
 
+#ifdef SLU_MT_VERIF
+		    SLU_MT_VERIF_EVENT(SLUV_PRUNE_BEGIN, pnum, jj, 0, 0, pxgstrf_shared);
+#endif
 		    /* Prune columns [0:jj-1] using column jj */
 		    pxgstrf_pruneL(jj, perm_r, pivrow, nseg, segrep,
 				   &repfnz[k], xprune, ispruned, Glu);
 
+#ifdef SLU_MT_VERIF
+		    SLU_MT_VERIF_EVENT(SLUV_PRUNE_END, pnum, jj, 0, 0, pxgstrf_shared);
+#endif
 		    /* Reset repfnz[] for this column */
 		    pxgstrf_resetrep_col (nseg, segrep, &repfnz[k]);
 
@@ -390,7 +426,13 @@ void
 		
 	    } /* else regular panel ... */
 	    
+#ifdef SLU_MT_VERIF
+	    SLU_MT_VERIF_EVENT(SLUV_PANEL_DONE_PRE, pnum, jcol, 0, 0, pxgstrf_shared);
+#endif
 	    STATE( jcol ) = DONE; /* Release panel jcol. */
+#ifdef SLU_MT_VERIF
+	    SLU_MT_VERIF_EVENT(SLUV_PANEL_DONE, pnum, jcol, 0, 0, pxgstrf_shared);
+#endif
 	    
 #ifdef PROFILE
 	    TOC(Gstat->panstat[jcol].fctime, t1);
